@@ -196,6 +196,25 @@ class Run:
                 H.stdout.append(b'?')
             return UNIT
 
+        def m_stat(I, args, callee):
+            """graph::stat as far as run.rs itself may use it (check_build_dirty is cut): the manifest's own file.  Its
+            mtime moves when the generator rewrites the top-level file; with the modelled load::read a generator may
+            equally leave the top-level file alone and rewrite only a file it includes (symbolic choice, made only if
+            the code asks)"""
+            from checks import dirtylib as D
+            name = conc_bytes(I, as_slice(I, args[0])) or b''
+            if name[:2] == b'./':
+                name = name[2:]
+            if name != b'build.ninja':
+                return ok(D.stamp(IntV(64, 1000, True), IntV(32, 0)))
+            nreg = sum(1 for e in H.events if e[0] == 'fin' and e[2] == 'regen' and e[3])
+            if nreg and not H.real_read:
+                if H.untouched is None:
+                    H.untouched = I.choose('toplevel_untouched', 2) == 1
+                if H.untouched:
+                    nreg = 0
+            return ok(D.stamp(IntV(64, 1000 + nreg, True), IntV(32, 0)))
+
         def on_run(I, args):
             H.events.append(('run', 1 + sum(1 for e in H.events if e[0] == 'run')))
         I.hooks['enter:run'] = on_run
@@ -217,6 +236,7 @@ class Run:
             real = [(r'^(load::)?read$', m_load_read)]
         I.set_overrides(real + [
             (r'(^|::)parse_args$', m_parse_args),
+            (r'^(graph::)?stat$', m_stat),
             (r'(^|::)use_fancy$', lambda I, a, c: BoolV(False)),
             (r'DumbConsoleProgress::new$', lambda I, a, c: Agg('DumbConsoleProgress', [a[0], Opaque('cell')])),
             (r'^<DumbConsoleProgress as (progress::)?Progress>::', lambda I, a, c: UNIT),
@@ -235,7 +255,7 @@ class Run:
 
     def extra(self):
         return {'g1': self.g1name, 'g2': self.g2name, 'targets': list(self.targets), 'filename': self.filename,
-                'events': list(self.events)}
+                'events': list(self.events), 'untouched': bool(self.untouched)}
 
     def run_path(self, I):
         self.worlds = []
@@ -245,6 +265,7 @@ class Run:
         self.judged = {}
         self.stdout = []
         self.nsucc = self.nfail = 0
+        self.untouched = None
         from checks import dblib
         self.disk = dblib.Disk()
         self.g1name = self.g1s[I.choose('g1', len(self.g1s))]
@@ -426,15 +447,20 @@ def native_run(tree, extra, model):
             return subprocess.run(cmd, shell=True, cwd=d, stdout=subprocess.PIPE, stderr=subprocess.STDOUT, text=True, timeout=60, **kw)
         g1 = G1_VARIANTS[extra['g1']]()
         g2 = GEN2[extra['g2']]()
-        open(os.path.join(d, 'build.ninja'), 'w').write(manifest_text(g1))
+        # layout: the generator rewrites build.ninja itself, or (extra['untouched']) build.ninja is a fixed
+        # `include all.ninja` and the generator rewrites all.ninja only
+        target = 'all.ninja' if extra.get('untouched') else 'build.ninja'
+        if extra.get('untouched'):
+            open(os.path.join(d, 'build.ninja'), 'w').write('include all.ninja\n')
+        open(os.path.join(d, target), 'w').write(manifest_text(g1))
         open(os.path.join(d, 'next.ninja'), 'w').write(manifest_text(g2))
-        open(os.path.join(d, 'regen.sh'), 'w').write('echo regen >> ran.log\ncp next.ninja build.ninja\n')
+        open(os.path.join(d, 'regen.sh'), 'w').write('echo regen >> ran.log\ncp next.ninja %s\n' % target)
         open(os.path.join(d, 'step.sh'), 'w').write('echo $1 >> ran.log\ntouch $1\n')
         sh('touch -d @1000000000 gen.in s x; touch -d @1000000001 build.ninja')
         # bring generation 1 fully up to date (the generator is not dirty: build.ninja is newer and recorded)
         open(os.path.join(d, 'regen.sh'), 'w').write('echo regen >> ran.log\ntouch build.ninja\n')
         sh('%s t1 u build.ninja' % n2)
-        open(os.path.join(d, 'regen.sh'), 'w').write('echo regen >> ran.log\ncp next.ninja build.ninja\n')
+        open(os.path.join(d, 'regen.sh'), 'w').write('echo regen >> ran.log\ncp next.ninja %s\n' % target)
         sh('rm -f ran.log')
         ev = extra['events']
         # realise the dirty bits the path chose
